@@ -67,7 +67,7 @@ Section Order.
              | Some (VType tn) =>
                  (do vals <- resolve_args rs E d args;
                   do r <- mlift (construct_type (e_now E) tn vals); mret (None, push r st2)) lg1
-             | _ => (ROk (None, push (VErr ERuntime) st2), lg1)
+             | _ => (if folding E then mfail ERuntime else mret (None, push (VErr ERuntime) st2)) lg1
              end
     | (o, lg1) => (mcast o, lg1)
     end.
@@ -80,9 +80,15 @@ Section Order.
 
   (** not callable: neither function, macro nor type *)
   Corollary not_callable name st lg :
-    has_func E name = false -> has_macro E name = false -> env_type E name = None ->
+    has_func E name = false -> has_macro E name = false -> env_type E name = None -> folding E = false ->
     step rs E d (ICall 0) (SVal (VIdent name) :: st) lg = (ROk (None, push (VErr ERuntime) st), lg).
-  Proof. intros H1 H2 H3. rewrite call_order. cbn. rewrite H1, H2, H3. reflexivity. Qed.
+  Proof. intros H1 H2 H3 H4. rewrite call_order. cbn. rewrite H1, H2, H3, H4. reflexivity. Qed.
+
+  (** ... and while the compiler folds constants it ends the evaluation (the name may be callable at run time) *)
+  Corollary not_callable_stops_folding name st lg :
+    has_func E name = false -> has_macro E name = false -> env_type E name = None -> folding E = true ->
+    step rs E d (ICall 0) (SVal (VIdent name) :: st) lg = (RErr ERuntime, lg).
+  Proof. intros H1 H2 H3 H4. rewrite call_order. cbn. rewrite H1, H2, H3, H4. reflexivity. Qed.
 
   (* ---- fields before methods ------------------------------------------------------ *)
 
